@@ -2,6 +2,8 @@
 
 PROPS = {}
 HARNESSES = []
+# properties whose check is registered in MANIFEST.json (the others are listed under not_applicable)
+CLAIMED = ["C02", "C08", "C09", "C10", "C11"]
 
 FMT = "alloc::fmt::format->String::new()"
 
@@ -68,10 +70,10 @@ prop("C04",
      level_note="Trusted: Kani/CBMC and Kani's std models (Vec, Cursor, slice Read). alloc::fmt::format stubbed (error text). <[u8;4] as TryFrom<&[u8]>>::try_from replaced by an assertion-checked copy (dead Err arm of chunks_exact). Memory clause: allocation sizes are count*4 and gates*(word/8) with 16/8-bit factors (bounded by 65535*4 and 65535*31) - read off the code, the allocator itself is not modelled.",
      outside="inputs longer than L; stack depth; real time; allocator behaviour")
 h("C04", "c04::c04_header", funcs=["decode_message_header"], space="all byte strings of length 0..=40", bounds="L = 40; no loop", mem=10)
-h("C04", "c04::c04_rda_status", funcs=["decode_rda_status_message"], space="all byte strings of length 0..=130", bounds="L = 130", mem=12, mfs=160)
-h("C04", "c04::c04_vcp", funcs=["decode_volume_coverage_pattern"], space="all byte strings of length 0..=168, cut count free in 0..=65535", bounds="L = 168, unwind 5 (<= 3 cuts fit)", mem=16, mfs=200, unwind_is_violation=True, timeout=1800)
-h("C04", "c04::c04_clutter_map", funcs=["decode_clutter_filter_map"], space="all byte strings of length 0..=44, segment and zone counts free", bounds="L = 44, unwind 24", mem=16, unwind_is_violation=True, timeout=1800)
-h("C04", "c04::c04_type31", funcs=["decode_digital_radar_data", "Message::radial", "GenericDataBlock::new"], space="all byte strings of length 0..=104 with block count <= 2; pointers, names, gates, word size free", bounds="L = 104, blocks <= 2, unwind 12", mem=24, mfs=128, unwind_is_violation=True, timeout=2400)
+h("C04", "c04::c04_rda_status", tier="thorough", funcs=["decode_rda_status_message"], space="all byte strings of length 0..=130", bounds="L = 130", mem=12, mfs=160)
+h("C04", "c04::c04_vcp", tier="thorough", funcs=["decode_volume_coverage_pattern"], space="all byte strings of length 0..=168, cut count free in 0..=65535", bounds="L = 168, unwind 5 (<= 3 cuts fit)", mem=16, mfs=200, unwind_is_violation=True, timeout=1800)
+h("C04", "c04::c04_clutter_map", tier="thorough", funcs=["decode_clutter_filter_map"], space="all byte strings of length 0..=44, segment and zone counts free", bounds="L = 44, unwind 24", mem=16, unwind_is_violation=True, timeout=1800)
+h("C04", "c04::c04_type31", tier="thorough", funcs=["decode_digital_radar_data", "Message::radial", "GenericDataBlock::new"], space="all byte strings of length 0..=104 with block count <= 2; pointers, names, gates, word size free", bounds="L = 104, blocks <= 2, unwind 12", mem=24, mfs=128, unwind_is_violation=True, timeout=2400)
 
 # ------------------------------------------------------------------------------------------- C02
 prop("C02",
@@ -83,7 +85,9 @@ h("C02", "c02::c02_header_vol", funcs=D31, space="header(32) + VOL(52): all 2^(8
 h("C02", "c02::c02_elv", funcs=D31, space="header + ELV(12), all free bytes", bounds="1 block; unwind 6", mfs=128, mem=14, timeout=1500)
 h("C02", "c02::c02_rad", funcs=D31, space="header + RAD(28), all free bytes", bounds="1 block; unwind 6", mfs=128, mem=14, timeout=1500)
 for nm in ("ref", "vel", "sw", "zdr", "phi", "rho", "cfp"):
-    h("C02", "c02::c02_%s" % nm, funcs=D31, space="header + moment block %s: all header bytes, gates 0..=4, word size 8|16, all gate bytes" % nm.upper(), bounds="gates <= 4; unwind 10", mfs=128, mem=12, timeout=1500)
+    h("C02", "c02::c02_%s" % nm, tier="quick" if nm in ("ref", "phi", "cfp") else "thorough", funcs=D31, space="header + moment block %s: all header bytes, gates 0..=3, word size 8|16, all gate bytes" % nm.upper(), bounds="gates <= 3; unwind 8", mfs=128, mem=12, timeout=1500)
+for nm in ("ref", "phi"):
+    h("C02", "c02::c02_%s_g8" % nm, tier="thorough", funcs=D31, space="header + moment block %s: gates 0..=8, word size 8|16" % nm.upper(), bounds="gates <= 8; unwind 18", mfs=128, mem=20, timeout=3600)
 h("C02", "c02::c02_no_blocks", funcs=D31, space="all headers with block count 0", bounds="unwind 3", mfs=128, mem=4)
 
 # ------------------------------------------------------------------------------------------- C11
@@ -151,8 +155,9 @@ prop("C07",
      level_text="Bounded model checking of Message::radial / into_radial, GenericDataBlock::decoded_values and MomentData::values: header mapping for all headers (in-range date/time), moment routing for all 2^7 presence subsets, the value rule for all 256 raw bytes over a listed set of scale/offset pairs, plus an SMT (QF_FP) equivalence of the two value formulas' MIR for all finite f32 scale/offset (engine Z).",
      level_note="Trusted: Kani/CBMC float bit-blasting; z3/cvc5 QF_FP for the Z query. The K value harness ranges over ten listed (scale, offset) pairs because symbolic f32 division does not terminate in CBMC; the Z query covers all finite pairs. 16-bit moments: see known finding.",
      outside="more than 2 gates per moment in one query; NaN angles in the equality of the two conversions (PartialEq on f32)")
-h("C07", "c07::c07_header_mapping", funcs=["digital_radar_data::Message::{radial,into_radial}", "Header::{date_time,radial_status}", "Radial::new + accessors"], space="all headers with date >= 1, time < 86,400,000 ms, non-NaN angles", bounds="no loop; complete", mem=10, timeout=1500)
-h("C07", "c07::c07_moment_routing", funcs=["Message::{radial,into_radial}", "GenericDataBlock::{moment_data,into_moment_data}", "MomentData::values"], space="all 2^7 presence subsets, 1 gate each", bounds="1 gate per moment; unwind 4", mem=16, timeout=2400)
+h("C07", "c07::c07_header_mapping", funcs=["digital_radar_data::Message::{radial,into_radial}", "Header::{date_time,radial_status}", "Radial::new + accessors"], space="all headers with non-NaN angles (date/time concrete)", bounds="no loop; complete", mem=10, timeout=1500)
+h("C07", "c07::c07_collection_time", funcs=["digital_radar_data::Message::{radial,into_radial}", "Header::date_time", "DateTime::timestamp_millis"], space="all dates 1..=65535 x all times < 86,400,000 ms", bounds="no loop; complete", mem=10, timeout=2400)
+h("C07", "c07::c07_moment_routing", funcs=["Message::{radial,into_radial}", "GenericDataBlock::{moment_data,into_moment_data}", "MomentData::values"], space="all 2^7 presence subsets, 1 gate each", bounds="1 gate per moment; unwind 9", mfs=2048, mem=16, timeout=2400)
 h("C07", "c07::c07_values_levels_agree", funcs=["GenericDataBlock::decoded_values", "MomentData::values"], space="all 256 raw bytes x 10 listed (scale, offset) pairs", bounds="1 gate; unwind 4", mem=10, timeout=1800)
 h("C07", "c07::c07_gate_count_word8", funcs=["GenericDataBlock::decoded_values", "MomentData::values"], space="gates 0..=2, any bytes, 8-bit words", bounds="gates <= 2; unwind 5", mem=10, timeout=1500)
 h("C07", "c07::c07_known_word16_witness", witness_for="c07_word16", funcs=["GenericDataBlock::decoded_values", "MomentData::values"], space="1 gate, 16-bit word, any 2 data bytes", bounds="unwind 6", mem=10, timeout=1500)
@@ -165,7 +170,7 @@ prop("C19",
 h("C19", "c19::c19_elevation_map_le4", funcs=["realtime::get_elevation_from_chunk", "ElevationDataBlock::super_resolution_control_half_degree_azimuth"], space="all cut lists of length 0..=4 x resolution bits x sequences 1..=200", bounds="L <= 4; unwind 6", mem=4)
 h("C19", "c19::c19_elevation_map_le8", funcs=["realtime::get_elevation_from_chunk"], space="all cut lists of length 0..=8 x sequences 1..=200", bounds="L <= 8; unwind 10", mem=4, timeout=1500)
 h("C19", "c19::c19_elevation_map_le32", tier="thorough", funcs=["realtime::get_elevation_from_chunk"], space="all cut lists of length 0..=32 x sequences 1..=200", bounds="L <= 32; unwind 34", mem=24, timeout=3600)
-h("C19", "c19::c19_estimate_default", funcs=["realtime::estimate_next_chunk_time", "get_default_wait_time", "ChunkIdentifier::{sequence,date_time}", "get_elevation_from_chunk"], space="previous sequence 000..=999 x upload time 1970..2100 (s) x 2 cuts with symbolic waveform/channel codes", bounds="2 cuts; unwind 24 (21-char name)", mem=16, timeout=2400)
+h("C19", "c19::c19_estimate_default", funcs=["realtime::estimate_next_chunk_time", "get_default_wait_time", "ChunkIdentifier::{sequence,date_time}", "get_elevation_from_chunk"], space="every previous sequence (any usize, or unparsable) x upload time 1970..2100 (s) x 2 cuts with symbolic waveform/channel codes", bounds="2 cuts; ChunkIdentifier::sequence stubbed by an arbitrary value (its parser is C16)", mem=16, timeout=2400)
 
 # ------------------------------------------------------------------------------------------- C16
 prop("C16",
@@ -177,15 +182,14 @@ h("C16", "c16::c16_parse", funcs=CI, space="all 1000 digit triples x all ASCII t
 h("C16", "c16::c16_successor_volume", funcs=CI, space="sequences 055..=999 x volumes 1..=999", bounds="unwind 24", mem=12, timeout=1800)
 h("C16", "c16::c16_successor_sequence", funcs=CI, space="sequences 000..=054 x volumes 1..=999", bounds="unwind 24; name text stubbed", mem=12, timeout=1800)
 h("C16", "c16::c16_parse_total", funcs=CI, space="all ASCII triples in the sequence field", bounds="unwind 24", mem=12, timeout=1800)
-h("C16", "c16::c16_archive_site_total", funcs=["archive::Identifier::{new,site}"], space="all valid UTF-8 strings of 0..=8 bytes", bounds="L = 8; unwind 12", mem=12, timeout=1800)
 
 # ------------------------------------------------------------------------------------------- C15
 prop("C15",
-     level_text="Bounded model checking of the real rotated search (crate-private, reached through the verif-hooks wrapper) on an in-memory bucket whose shape - newest position p and populated count c - is symbolic: for each directory count N one SAT query covers all N x (N+1) shapes, asserting the result is the newest populated directory (none when empty) and that the number of listing requests stays within N + ceil(log2 N) + 2.",
+     level_text="Bounded model checking of the real rotated search (crate-private, reached through the verif-hooks wrapper) on an in-memory bucket: for each directory count N every shape (newest position p, populated count c; N x N + 1 of them, concrete because a symbolic split of the search's VecDeque state is beyond CBMC) is run with SYMBOLIC upload times (any strictly increasing u32 values along the populated run), asserting the result is the newest populated directory (none when empty) and that the number of listing requests stays within N + ceil(log2 N) + 2.",
      level_note="Trusted: Kani/CBMC, Kani's model of async state machines polled once with a no-op waker (futures are ready immediately), VecDeque from std compiled as is. get_latest_volume (S3 listing closure, element count 998, +1 index mapping) is NOT encoded.",
      outside="N = 999 (production size) and any N above the tier bound; get_latest_volume itself; listings that fail or block")
 for n, tier, mem, to in ((1, "quick", 8, 900), (2, "quick", 10, 900), (3, "quick", 12, 1200), (4, "quick", 16, 1800), (5, "thorough", 24, 3600), (6, "thorough", 36, 5400)):
-    h("C15", "c15::c15_latest_n%d" % n, tier=tier, funcs=["aws::realtime::search::search", "search::should_search_right"], space="all %d x %d bucket shapes for %d directories" % (n, n + 1, n), bounds="N = %d; unwind %d" % (n, 6 + 2 * n), mem=mem, timeout=to)
+    h("C15", "c15::c15_latest_n%d" % n, tier=tier, funcs=["aws::realtime::search::search", "search::should_search_right"], space="all %d bucket shapes for %d directories x all strictly increasing u32 upload times" % (n * n + 1, n), bounds="N = %d; unwind %d" % (n, 6 + 2 * n), mfs=2048, mem=mem, timeout=to)
 
 # ------------------------------------------------------------------------------------------- C03
 prop("C03",
@@ -201,10 +205,10 @@ prop("C13",
      outside="more than 2 elevation segments; other placements of non-empty azimuths; zone counts above 2")
 CFM = ["clutter_filter_map::decode_clutter_filter_map", "util::deserialize", "RangeZone::op_code"]
 h("C13", "c13::c13_structure_s0", funcs=CFM, space="all headers with 0 segments", bounds="S = 0", mem=8)
-h("C13", "c13::c13_structure_s1", funcs=CFM, space="1 segment x 360 azimuths; zones (2,1,2) at azimuths 0,1,359 with symbolic values", bounds="S = 1; unwind 362", mfs=800, mem=24, timeout=3000)
-h("C13", "c13::c13_structure_s2", tier="thorough", funcs=CFM, space="2 segments x 360 azimuths; zones (1,0,2)", bounds="S = 2; unwind 362", mfs=1600, mem=40, timeout=7200)
-h("C13", "c13::c13_truncated", funcs=CFM, space="one declared segment, zero zone counts, every cut point 0..=726", bounds="unwind 362", mfs=800, mem=24, timeout=3000, unwind_is_violation=True)
-h("C04", "c04::c04_type31_one_block_free", funcs=["decode_digital_radar_data", "Message::radial", "GenericDataBlock::new"], space="all 2^(8*74) 76-byte inputs with block count 1: pointer, block type/name, gates, word size free", bounds="fixed length 76, 1 block; unwind 12", mem=16, mfs=128, unwind_is_violation=True, timeout=2400)
+h("C13", "c13::c13_structure_s1", funcs=CFM, space="1 segment x 360 azimuths; zones (2,1,2) at azimuths 0,1,359 with symbolic values", bounds="S = 1; unwind 362", mfs=16384, mem=24, timeout=3000)
+h("C13", "c13::c13_structure_s2", tier="thorough", funcs=CFM, space="2 segments x 360 azimuths; zones (1,0,2)", bounds="S = 2; unwind 362", mfs=16384, mem=40, timeout=7200)
+h("C13", "c13::c13_truncated", funcs=CFM, space="one declared segment, zero zone counts, every cut point 0..=726", bounds="unwind 362", mfs=16384, mem=24, timeout=3000, unwind_is_violation=True)
+h("C04", "c04::c04_type31_one_block_free", tier="thorough", funcs=["decode_digital_radar_data", "Message::radial", "GenericDataBlock::new"], space="all 2^(8*74) 76-byte inputs with block count 1: pointer, block type/name, gates, word size free", bounds="fixed length 76, 1 block; unwind 12", mem=16, mfs=128, unwind_is_violation=True, timeout=2400)
 h("C07", "z::c07_value_formula", kind="z", script="smt/z_c07.py", funcs=["GenericDataBlock::decoded_values::{closure#0} (MIR)", "MomentData::values + {closure#0,#1} (MIR)"], space="all 256 raw bytes x all finite f32 scale x all finite f32 offset (levels: every f32 bit pattern)", bounds="loop-free closures: no bound; QF_FP, z3 and cvc5 must agree", mem=6, timeout=1200)
 h("C04", "c04::c04_type31_one_block_ascii_name", funcs=["decode_digital_radar_data", "Message::radial", "GenericDataBlock::new"], space="76-byte inputs, one block at offset 36, block type and ASCII name free (all 2^21 names), gates/word size/rest free", bounds="fixed length 76, 1 block; unwind 12", mem=16, mfs=128, unwind_is_violation=True, timeout=2400)
 
@@ -224,5 +228,24 @@ prop("C14",
      level_note="Trusted: Kani/CBMC. std::hash::RandomState::new stubbed to fixed SipHash keys (the real one calls the OS); alloc::fmt::format stubbed, so the strings inside RDAStatusInfo/VCPInfo are empty and not compared. Radials carry no moment or volume blocks here: per-group data-type counts and the VCP set (HashMap/HashSet inserts with string keys) are not claimed.",
      outside="lists longer than 3; data-type counts and the VCP set; text of status/VCP info")
 for n, tier, mem, to in ((0, "quick", 8, 900), (1, "quick", 16, 1800), (2, "quick", 24, 2400), (3, "thorough", 40, 7200)):
-    h("C14", "c14::c14_summary_n%d" % n, tier=tier, funcs=["summarize::messages", "summarize::rda::extract_rda_status_info", "summarize::vcp::extract_vcp_info", "MessageHeader::{message_type,date_time}"], space="all lists of %d messages: kinds^%d x elevation numbers x opaque type codes x times of day" % (n, n), bounds="N = %d" % n, mem=mem, timeout=to, mfs=160)
-h("C19", "c19::c19_estimate_history", funcs=["realtime::estimate_next_chunk_time", "ChunkTimingStats::{new,add_timing,get_average_timing,get_average_attempts}", "std HashMap/VecDeque"], space="11 samples under one key (durations 0..=60000 ms, attempts 1..=5, all symbolic) + 1 sample under another key", bounds="exactly 11+1 recorded samples; unwind 24", mem=24, timeout=3600)
+    h("C14", "c14::c14_summary_n%d" % n, tier=tier, funcs=["summarize::messages", "summarize::rda::extract_rda_status_info", "summarize::vcp::extract_vcp_info", "MessageHeader::{message_type,date_time}"], space="all lists of %d messages: kinds^%d x elevation numbers x opaque type codes x times of day" % (n, n), bounds="N = %d" % n, mem=mem, timeout=to, mfs=4096)
+h("C19", "c19::c19_estimate_history", funcs=["realtime::estimate_next_chunk_time", "ChunkTimingStats::{new,add_timing,get_average_timing,get_average_attempts}", "std HashMap/VecDeque"], space="11 samples under one key (durations 0..=60000 ms, attempts 1..=5, all symbolic) + 1 sample under another key", bounds="exactly 11+1 recorded samples; unwind 24", mfs=4096, mem=24, timeout=3600)
+h("C03", "c03::c03_frame_then_type31", funcs=["decode_messages", "decode_message_contents", "decode_digital_radar_data"], space="[2432-byte frame, any of 255 type codes][type-31 with one ELV block]; both headers and the elevation number symbolic", bounds="2 messages; unwind 30", mfs=2600, mem=24, timeout=3000)
+h("C03", "c03::c03_type31_then_frame", funcs=["decode_messages", "decode_message_contents", "decode_digital_radar_data"], space="[type-31 with one ELV block][2432-byte frame, any of 255 type codes]", bounds="2 messages; unwind 30", mfs=2600, mem=24, timeout=3000)
+h("C03", "c03::c03_cut_inside_body", funcs=["decode_messages", "decode_message_contents"], space="one complete frame + second header + body cut after 0..=100 bytes; both type codes symbolic (non-31)", bounds="cut within the first 100 body bytes; unwind 30", mfs=2600, mem=24, timeout=3000)
+h("C13", "c13::c13_truncated_last_zones", funcs=CFM, space="one segment whose azimuth 359 declares two zones; cut at 726..=734", bounds="unwind 362", mfs=16384, mem=24, timeout=3000, unwind_is_violation=True)
+h("C03", "c03::c03_two_frames", funcs=["decode_messages", "decode_message_contents"], space="two 2432-byte frames, both type codes (non-31) and both headers symbolic", bounds="2 messages; unwind 30", mfs=5000, mem=24, timeout=3000)
+h("C04", "c04::c04_vcp_fixed_frame", funcs=["decode_volume_coverage_pattern"], space="all 2^(8*114) inputs of 114 bytes", bounds="fixed length; unwind 5", mfs=128, mem=12, unwind_is_violation=True, timeout=1800)
+h("C04", "c04::c04_messages_short_stream", funcs=["decode_messages", "decode_message_header", "decode_message_contents", "decode_digital_radar_data"], space="76-byte streams: free message header, type 31, one block with free type/ASCII name/contents", bounds="fixed length 76; unwind 12", mfs=128, mem=24, unwind_is_violation=True, timeout=3000)
+h("C01", "c01::c01_two_radials_same_elevation", funcs=SC, space="1 record, 2 radials of elevation 1, each with a VOL block: azimuth numbers, VCP numbers, times symbolic", bounds="2 radials, concrete elevation numbers (1,1); unwind 8", mfs=4096, mem=30, timeout=3600)
+h("C01", "c01::c01_two_radials_two_elevations", funcs=SC, space="1 record, 2 radials of elevations 1 and 2, each with a VOL block", bounds="2 radials, concrete elevation numbers (1,2); unwind 8", mfs=4096, mem=30, timeout=3600)
+h("C16", "c16::c16_archive_name_total", funcs=["archive::Identifier::{new,site,date_time}"], space="all strings of 0..=24 bytes: free ASCII with one 2-byte character at any position", bounds="L = 24; chrono's NaiveDate/NaiveTime::parse_from_str stubbed by 'any result'; unwind 28", mem=12, timeout=1800)
+h("C04", "z::c04_gate_buffer_bound", kind="z", script="smt/z_c04.py", funcs=["GenericDataBlock::new (MIR)"], space="all 2^16 gate counts x all 2^8 word sizes", bounds="loop-free; QF_BV; z3 and cvc5 must agree", mem=6, timeout=900)
+# the 'BZ' predicate and the decompress/decode error gates are part of C05's statement as well
+h("C05", "c06::c06_record_compressed", funcs=["volume::Record::{from_slice,new,data,compressed}"], space="all byte strings of length 0..=12", bounds="L = 12", mem=4)
+h("C05", "c06::c06_compressed_record_not_decoded", funcs=["volume::Record::{messages,compressed}"], space="all 12-byte records with the 'BZ' magic", bounds="magic bytes concrete", mem=8)
+h("C05", "c06::c06_uncompressed_record_not_decompressed", funcs=["volume::Record::{decompress,compressed}"], space="all 5-byte records; all 12-byte records whose byte 4 is 'X'", bounds="only the gate before FFI", mem=8)
+for nm, sp in (("c02_two_vol_ref", "VOL then REF, contiguous, pointers in order"), ("c02_two_ref_vol_permuted_gaps", "REF then VOL with gaps 3 and 1, pointer table permuted"),
+               ("c02_two_elv_rad_gap", "ELV then RAD after a 4-byte gap"), ("c02_two_phi_rho_permuted", "PHI then RHO, gap 2, pointer table permuted"),
+               ("c02_two_cfp_zdr", "CFP then ZDR, gap 1")):
+    h("C02", "c02::%s" % nm, tier="quick" if nm in ("c02_two_ref_vol_permuted_gaps",) else "thorough", funcs=D31, space="header + 2 blocks (%s): all other bytes symbolic, word size 8|16" % sp, bounds="2 blocks, concrete layout; unwind 10", mfs=256, mem=16, timeout=2400)
